@@ -102,12 +102,12 @@ func (l *mapLoop) elemDependent(v ssa.Value, seen map[ssa.Value]bool, depth int)
 }
 
 type detEffects struct {
-	returnsElem   bool // return carrying an element-dependent value from inside the loop
-	exitAssign    []string // element-dependent values live after the loop through a phi at an exit (selection)
-	appends       []string // slices appended with element-dependent values
-	mapStores     int
-	calls         []string // module callees with element-dependent arguments
-	sends         int
+	returnsElem bool     // return carrying an element-dependent value from inside the loop
+	exitAssign  []string // element-dependent values live after the loop through a phi at an exit (selection)
+	appends     []string // slices appended with element-dependent values
+	mapStores   int
+	calls       []string // module callees with element-dependent arguments
+	sends       int
 }
 
 func (l *mapLoop) effects(c *Ctx) detEffects {
